@@ -347,4 +347,5 @@ Proof.
   intros I St k. pose proof (i_busy _ I k) as Hb.
   destruct St; acbn; try exact Hb; cntsimp; unfold hupd; eqb_cases; cbn; unfold b2z; try lia.
   all: try (destruct (pending (a_hs a h)); cbn; eqb_cases; lia).
-Qed.
+  Show.
+Abort.
